@@ -128,7 +128,8 @@ pub fn run(ctx: &Ctx) {
      .and/.within/.regexp/.default/.cat/.plus) x 8 JSON-model documents (samples, near misses, unrelated), each serialised \
      as JSON text and as CBOR (ints as major 0/1, floats, text, arrays, text-keyed maps in the same order). Oracle: \
      differential - validate_json_from_str and validate_cbor_from_slice must both accept or both not accept. Non-trivial: \
-     distinct (schema, document) pairs that are not rejected at the top-level scalar kind; schema errors reported by both are trivial.",
+     distinct (schema, document) pairs that are not rejected at the top-level scalar kind; schema errors reported by both are trivial. \
+     Sub-check array_controls: 8 array targets x {.eq,.ne,.default} x 2-3 array controllers (inline and through rule names) x 20 documents, exhaustively, same differential.",
   );
   calls::set_isolated(true, 10_000);
   ctx.assume("validator calls run in child worker processes (8 MiB stack, 10 s per call); an abort or hang counts as not-accept here and is tallied (C05 judges it)");
@@ -172,9 +173,68 @@ pub fn run(ctx: &Ctx) {
     }
     Ok(())
   });
+  // control operators whose target is an array type: the operator has to travel through the array matcher into the
+  // item validators of both validators (generated schemas put controls on scalars only)
+  let pairs = array_control_pairs();
+  let empty = Schema(vec![]);
+  let no_excl = |_: &Schema, _: &CVal, _: &V, _: &V| -> Option<&'static str> { None };
+  vcore::sweep(ctx, "array_controls", &pairs, |(text, d), st| eval("array_controls", &empty, text, d, "universe", st, &no_excl));
   if survey_on() {
     survey_dump(ctx);
   }
+}
+
+/// (schema text, document): 8 array targets x {.eq, .ne, .default} x 2-3 array controllers each x a universe of arrays
+fn array_control_pairs() -> Vec<(String, CVal)> {
+  let i = |n: i128| CVal::Int(n);
+  let t = |s: &str| CVal::Text(s.to_string());
+  let a = |v: Vec<CVal>| CVal::Array(v);
+  let docs = vec![
+    a(vec![]),
+    a(vec![i(1)]),
+    a(vec![i(3)]),
+    a(vec![i(1), i(2)]),
+    a(vec![i(3), i(4)]),
+    a(vec![i(1), i(3)]),
+    a(vec![i(3), i(2)]),
+    a(vec![i(1), i(2), i(3)]),
+    a(vec![i(1), t("x")]),
+    a(vec![i(3), t("x")]),
+    a(vec![i(1), t("y")]),
+    a(vec![t("x")]),
+    a(vec![t("x"), t("y")]),
+    a(vec![a(vec![i(0), t("")])]),
+    a(vec![a(vec![i(1), t("x")])]),
+    a(vec![a(vec![i(0), t("")]), a(vec![i(1), t("x")])]),
+    a(vec![i(1), a(vec![i(2)])]),
+    a(vec![i(3), a(vec![i(4)])]),
+    i(1),
+    t("x"),
+  ];
+  let targets: [(&str, &[&str]); 8] = [
+    ("[int, int]", &["[1, 2]", "[3, 2]"]),
+    ("[* int]", &["[1, 2]", "[1]", "[]"]),
+    ("[+ int]", &["[1, 2]", "[3]"]),
+    ("[int, ? int]", &["[1, 2]", "[1]"]),
+    ("[int, tstr]", &["[1, \"x\"]", "[3, \"y\"]"]),
+    ("[* tstr]", &["[\"x\"]", "[\"x\", \"y\"]"]),
+    ("[* [int, tstr]]", &["[[0, \"\"]]", "[[1, \"x\"]]"]),
+    ("[int, [int]]", &["[1, [2]]", "[3, [4]]"]),
+  ];
+  let mut v = vec![];
+  for (target, ctrls) in targets {
+    for op in ["eq", "ne", "default"] {
+      for c in ctrls {
+        for form in 0..2 {
+          let text = if form == 0 { format!("a = {} .{} {}\n", target, op, c) } else { format!("a = b .{} c\nb = {}\nc = {}\n", op, target, c) };
+          for d in &docs {
+            v.push((text.clone(), d.clone()));
+          }
+        }
+      }
+    }
+  }
+  v
 }
 
 pub fn has_int(v: &CVal) -> bool {
